@@ -41,7 +41,7 @@ class Case:
 
 
 def build_cases(rng, n_desc, gen_kwargs=None, values_per_stream=(2, 2, 1), decode_budget=40, want_static=True,
-                extra_descs=()):
+                extra_descs=(), use_corpus=False):
     """returns list of Case with implementation results filled in and wire cases queued"""
     cases = []
     descs = list(extra_descs)
@@ -51,6 +51,11 @@ def build_cases(rng, n_desc, gen_kwargs=None, values_per_stream=(2, 2, 1), decod
         ps = g.permuted_params() if rng.random() < 0.12 else g.params(0, response=is_resp)
         descs.append((ps, is_resp, g))
     # load in batches of documents (one document per description keeps failures isolated)
+    corpus = corpus_descs() if use_corpus else []
+    corpus_values = {}
+    for ps, is_resp, vals in corpus:
+        corpus_values[len(descs)] = vals
+        descs.append((ps, is_resp, None))
     for i, (ps, is_resp, g) in enumerate(descs):
         c = Case(ps, is_resp, f"m{i}")
         try:
@@ -64,6 +69,8 @@ def build_cases(rng, n_desc, gen_kwargs=None, values_per_stream=(2, 2, 1), decod
         req = bytes(rng.randrange(256) for _ in range(rng.choice([0, 1, 2, 3, 4]))) if is_resp else None
         if is_resp and rng.random() < 0.1:
             req = None
+        for v in corpus_values.get(i, []):
+            c.encs.append(dict(value=v, req=req, stream="corpus", impl=cc.impl_encode(c.obj, v, req)))
         for stream, cnt in zip(("valid", "boundary", "illtyped"), values_per_stream):
             for _ in range(cnt):
                 v = g.values_for_params(ps, stream)
@@ -199,3 +206,34 @@ def atomic_sweep_cases(rng, quick=True):
             c.encs.append(dict(value={"p1": v}, req=None, stream="sweep", impl=cc.impl_encode(c.obj, {"p1": v})))
         cases.append(c)
     return cases
+
+
+def corpus_descs():
+    """hand-written descriptions for feature combinations the random generator reaches rarely;
+    each entry: (params, is_response, value list)"""
+    u8 = lambda: cc.simple(cc.std(cc.BUINT, 8))
+    mm = lambda term, maxl=None: cc.simple(cc.minmax(cc.BBYTES, 0, maxl, term))
+    item = lambda term: cc.struct([cc.param("i1", dict(k="value", dop=u8(), dflt=None)),
+                                   cc.param("i2", dict(k="value", dop=mm(term, 4), dflt=None))])
+    out = []
+    items = [{"i1": 1, "i2": b"ab"}, {"i1": 2, "i2": b"c"}, {"i1": 3, "i2": b"defg"}]
+    for term in (0, 1):
+        dl = dict(k="dynlen", s=item(term), offset=1, cb=0, cbit=0, cnt=u8())
+        out.append(([cc.param("sid", dict(k="coded", dct=cc.std(cc.BUINT, 8), v=0x22)),
+                     cc.param("f", dict(k="value", dop=dl, dflt=None))], False,
+                    [{"f": items[:n]} for n in (0, 1, 2, 3)]))
+        out.append(([cc.param("sid", dict(k="coded", dct=cc.std(cc.BUINT, 8), v=0x22)),
+                     cc.param("f", dict(k="value", dop=dict(k="eop", s=item(term)), dflt=None))], False,
+                    [{"f": items[:n]} for n in (0, 1, 2, 3)]))
+        out.append(([cc.param("sid", dict(k="coded", dct=cc.std(cc.BUINT, 8), v=0x22)),
+                     cc.param("f", dict(k="value", dop=dict(k="static", s=item(term), n=2, isz=6), dflt=None)),
+                     cc.param("t", dict(k="value", dop=u8(), dflt=None))], False,
+                    [{"f": items[:2], "t": 9}, {"f": items[1:3], "t": 0}]))
+        out.append(([cc.param("s", dict(k="value", dop=item(term), dflt=None)),
+                     cc.param("t", dict(k="value", dop=u8(), dflt=None))], False,
+                    [{"s": items[0], "t": 5}, {"s": items[2], "t": 5}]))
+    # string objects with an encoding which is illegal for strings (odxraise at run time)
+    for bt, en in ((cc.BASCII, 1), (cc.BUTF8, 4), (cc.BUNI, 0)):
+        out.append(([cc.param("p1", dict(k="value", dop=cc.simple(cc.std(bt, 16, en)), dflt=None))], False,
+                    [{"p1": "ab"}, {"p1": "a"}]))
+    return out
